@@ -8,6 +8,7 @@ exactly one runs at a time).  Invariants are asserted at those hooks, i.e. atomi
   M3 every caller sees the complete value     M4 at quiescence all counters / bookkeeping are zero
   M5 no deadlock state (all unfinished threads blocked, or parked in retry sleeps with no state change)
 Part B (fault enumeration): DiskCacher writes failing at every line / every write call, and cache files cut at every byte.
+Part D (real processes): spawn-ed workers share RawArray + mp.Lock + a DiskCacher directory; offline event-log check.
 Part C (real threads): the real class with real threading.Lock under sys.monitoring LINE-level yield injection; offline
 check of the recorded event log (M2, M3, M4).
 """
@@ -26,7 +27,7 @@ PLAN  = {"quick":    {"shards": 16, "cases": 6400,   "timeout": 900,  "budget_s"
 REQUIRED = ["sched.histories", "sched.contended-index", "hook.lock.acquire", "hook.array.set", "hook.inner.write", "hook.inner.read",
             "hook.sleep", "oracle.M1.read-enter", "oracle.M1.write-enter", "oracle.M2.getter", "oracle.M3.complete-value",
             "oracle.M4.quiescence", "inject.getter-raise", "inject.body-raise", "disk.write-fault", "disk.cut-byte",
-            "threads.runs", "threads.M3.complete-value"]
+            "threads.runs", "threads.M3.complete-value", "procs.runs", "procs.M2.getter", "procs.M3.complete-value", "procs.M4.quiescence"]
 ASSUMPTIONS = ["a caller never nests get_set on two different keys whose 16-bit hashes collide; nested calls follow a global key order",
                "granularity of part A = lock acquisitions/releases, shared-counter reads/writes, inner-cache operations, retry sleeps",
                "a watchdog or step cap firing without an established deadlock state is inconclusive, not a violation"]
@@ -496,6 +497,47 @@ def thread_stress(ctx, rng, runs):
         mon.free_tool_id(TOOL)
     return viol
 
+# ====================================================================================== part D: real processes
+def process_stress(ctx, rng, runs):
+    import subprocess, json
+    viol = []
+    for r in range(runs):
+        wd = tempfile.mkdtemp(prefix="vf-c19mp-")
+        try:
+            outp = os.path.join(wd, "out.json")
+            try:
+                p = subprocess.run([sys.executable, "-W", "ignore", "-m", "vf.c19_mp", wd, str(rng.randrange(1 << 30)), outp], timeout=150, capture_output=True, text=True)
+            except subprocess.TimeoutExpired:
+                ctx.note_inconclusive("process-stress-timeout"); continue
+            if not os.path.exists(outp):
+                ctx.note_inconclusive(f"process-stress-no-output: {p.stderr[-300:]}"); continue
+            out = json.load(open(outp))
+            ev = []
+            for line in open(os.path.join(wd, "events.log")) if os.path.exists(os.path.join(wd, "events.log")) else []:
+                a = line.split()
+                if len(a) >= 4: ev.append((float(a[0]), a[1], a[2], a[3], a[4] if len(a) > 4 else ""))
+            ev.sort()
+            ctx.count("procs.runs"); ctx.count("procs.events", len(ev)); ctx.case(("procs", out["n"], len(out["keys"]), r))
+            if out["hung"]:
+                ctx.note_inconclusive(f"process-stress-hung-workers {out['hung']}"); continue
+            last = {}
+            for t, kind, key, pid, extra in ev:
+                if kind == "G":
+                    ctx.count("procs.M2.getter")
+                    if last.get(key) == "G": viol.append(("M2/procs/getter-ran-twice-without-removal", f"getter of {key!r} ran again while the entry stayed cached"))
+                    last[key] = "G"
+                elif kind == "R": last[key] = "R"
+                elif kind == "V":
+                    ctx.count("procs.M3.complete-value")
+                    if extra != "ok": viol.append(("M3/procs/partial-value-served", f"a process read {extra} for {key!r}"))
+                elif kind == "E":
+                    viol.append((f"procs/caller-exception/{extra or pid}", f"a caller raised for {key!r}"))
+            ctx.count("procs.M4.quiescence")
+            if out["nonzero_counters"]: viol.append(("M4/procs/shared-counter-not-zero-at-quiescence", f"{out['nonzero_counters']} counters are non-zero after all processes left"))
+        finally:
+            shutil.rmtree(wd, ignore_errors=True)
+    return viol
+
 # ====================================================================================== entry points
 def run_shard(ctx):
     cnt = Counter()
@@ -503,6 +545,8 @@ def run_shard(ctx):
     # part B and C take a fixed small share of every shard
     for sig, what in disk_faults(ctx, ctx.rng, 2 if ctx.tier == "quick" else 12): ctx.violation(sig, what, {"part": "disk"})
     for sig, what in thread_stress(ctx, ctx.rng, 3 if ctx.tier == "quick" else 40): ctx.violation(sig, what, {"part": "threads"})
+    if ctx.shard % 4 == 0 or ctx.tier == "thorough":
+        for sig, what in process_stress(ctx, ctx.rng, 1 if ctx.tier == "quick" else 6): ctx.violation(sig, what, {"part": "processes"})
     i = 0
     while i < n_sched and ctx.time_left() > 0:
         spec = gen_case(ctx.rng)
